@@ -378,13 +378,21 @@ pub fn run(ctx: &Ctx) -> i32 {
         let all_o: Vec<String> = patterns_of("optimizations").iter().map(|s| s.to_string()).collect();
         let all_v: Vec<String> = patterns_of("vulnerabilities").iter().map(|s| s.to_string()).collect();
         let all_q: Vec<String> = patterns_of("qa").iter().map(|s| s.to_string()).collect();
-        std::fs::write(format!("{}/cfg.toml", cwd), toml_text(Some(&toml_path), &all_o, &all_v, &all_q)).unwrap();
+        // the configuration file sits either in the working directory or in a sub-directory of it
+        let toml_in_subdir = rng.chance(1, 2);
+        let toml_arg = if toml_in_subdir { "conf/cfg.toml" } else { "cfg.toml" };
+        std::fs::create_dir_all(format!("{}/conf", cwd)).unwrap();
+        let toml_path = if toml_in_subdir && toml_path.starts_with("./") && rng.chance(1, 2) { format!("{}/tdir", cwd) } else { toml_path };
+        std::fs::write(format!("{}/{}", cwd, toml_arg), toml_text(Some(&toml_path), &all_o, &all_v, &all_q)).unwrap();
         let mut args: Vec<&str> = vec![];
         if combo & 1 != 0 {
             args.extend(["--path", "pdir"]);
         }
         if combo & 2 != 0 {
-            args.extend(["--toml", "cfg.toml"]);
+            args.extend(["--toml", toml_arg]);
+            if toml_in_subdir {
+                acc.cov("precedence:toml-in-sub-directory");
+            }
         }
         let out = match run_solstat(&cwd, &args) {
             Ok(o) => o,
@@ -418,7 +426,9 @@ pub fn run(ctx: &Ctx) -> i32 {
                     Err(_) => BTreeSet::new(),
                 };
                 let exp: BTreeSet<String> = [f.to_string()].into_iter().collect();
-                if out.code != Some(0) || files != exp {
+                if out.code == Some(0) && out.report.is_none() {
+                    acc.violation("report-not-in-working-directory", json!({"argv": args, "note": "exit 0 but ./solstat_report.md does not exist"}));
+                } else if out.code != Some(0) || files != exp {
                     acc.violation(
                         format!("path-precedence:path={},toml={},contracts={}", combo & 1, (combo >> 1) & 1, (combo >> 2) & 1),
                         json!({"argv": args, "toml_path": toml_path, "contracts_dir_exists": combo & 4 != 0, "expected_files_in_report": exp, "files_in_report": files, "exit_code": out.code, "stderr": trunc(&out.stderr, 300)}),
